@@ -17,6 +17,7 @@ import (
 	"sync"
 	"time"
 
+	"github.com/goblimey/go-crc24q/crc24q"
 	circularQueue "github.com/goblimey/go-ntrip/apps/proxy/circular_queue"
 	"github.com/goblimey/go-ntrip/apps/proxy/reportfeed"
 	rtcm "github.com/goblimey/go-ntrip/rtcm/handler"
@@ -94,6 +95,13 @@ func c19Chunks(name string, k, size int) [][]byte {
 	return cs
 }
 
+func c19ValidFrame(p []byte) []byte {
+	f := []byte{0xd3, byte(len(p)>>8) & 3, byte(len(p))}
+	f = append(f, p...)
+	crc := crc24q.Hash(f)
+	return append(f, byte(crc>>16), byte(crc>>8), byte(crc))
+}
+
 func VerifC19_Relay() {
 	verifOwnPanics()
 	verifFixedClock(1676376000 * 1000000000)
@@ -112,11 +120,23 @@ func VerifC19_Relay() {
 	go keepCircularQueueUpdated(messageChan, recentMessages)
 	reportFeed = reportfeed.New(rtcmLog, recentMessages)
 
-	kc := verifParam("client-chunks", 0, 2)
-	ks := verifParam("server-chunks", 0, 2)
-	size := verifParam("chunk-size", 1, 2)
-	client := &c19Conn{chunks: c19Chunks("c", kc, size)}
-	server := &c19Conn{chunks: c19Chunks("s", ks, size)}
+	var client, server *c19Conn
+	if mode == 0 && verifParam("frames", 0, 1) == 1 {
+		// the client sends complete CRC-valid frames: one whose 12-bit type is
+		// symbolic (every type 0..4095), a second frame, one more byte; the
+		// parser and the queue must keep up with all of them (lazy schedule)
+		p := verifBytes("f", 2)
+		f1 := c19ValidFrame(p)
+		f2 := c19ValidFrame([]byte{0x4c, 0xe0, 0x00})
+		client = &c19Conn{chunks: [][]byte{f1, f2, verifBytes("t", 1)}}
+		server = &c19Conn{chunks: c19Chunks("s", 1, 2)}
+	} else {
+		kc := verifParam("client-chunks", 0, 2)
+		ks := verifParam("server-chunks", 0, 2)
+		size := verifParam("chunk-size", 1, 2)
+		client = &c19Conn{chunks: c19Chunks("c", kc, size)}
+		server = &c19Conn{chunks: c19Chunks("s", ks, size)}
+	}
 	verifWitness("reached")
 	handleMessages(server, client, false, 1)
 	verifWitness("returned")
